@@ -348,7 +348,7 @@ fn flood_item(p: &mut RawPeer, sc: &FloodScenario, st: &mut FloodState, i: usize
                 }
             };
             if sc.side_final && i % 2 == 1 {
-                // a side stream: request head and a small final DATA frame in one write; the handler (program 8)
+                // a side stream: request head and a small final DATA frame in one write; the handler (program 8, or 9 in the odd variants)
                 // resets the stream and drops the body unread. Final frames are not charged to the budget,
                 // so discarding them must not top it up either.
                 if p.sh.conn_window < 1 {
@@ -358,7 +358,7 @@ fn flood_item(p: &mut RawPeer, sc: &FloodScenario, st: &mut FloodState, i: usize
                 if side > 0x7fff_fff0 {
                     return false;
                 }
-                let block = p.encode_block(&request_fields(8, "POST", i));
+                let block = p.encode_block(&request_fields(if sc.variant % 2 == 1 { 9 } else { 8 }, "POST", i));
                 headers(side, &block, false, None, None, 0, 0, out);
                 data(side, b"s", true, None, out);
                 p.sh.conn_window -= 1;
@@ -681,8 +681,11 @@ fn flood_specs(sc: &FloodScenario) -> Vec<StreamSpec> {
     let mut drop_unread = plain_spec(8, "POST", vec![], vec![]);
     drop_unread.req_read.mode = ReadMode::StopAfter(0);
     drop_unread.server_reset = Some(8);
+    // program 9: the body is dropped without a read and the request answered normally
+    let mut drop_answer = plain_spec(9, "POST", vec![], vec![]);
+    drop_answer.req_read.mode = ReadMode::StopAfter(0);
     let _ = sc;
-    vec![fast, hold, reset, drop_unread]
+    vec![fast, hold, reset, drop_unread, drop_answer]
 }
 
 pub struct RunPeaks {
